@@ -9,6 +9,8 @@ mkdir -p work evidence
 (cd harness && cargo build --offline 2>&1 | tail -3)
 # the same harness and crate without debug assertions / overflow checks (second build profile of every check)
 (cd harness && cargo build --offline --target-dir target-nd --config 'build.rustflags=["--cfg","fast_qr_verif","-C","debug-assertions=off","-C","overflow-checks=off"]' 2>&1 | tail -3)
+# the crate and the harness unoptimised (third build profile: the cases that run in child processes also run there)
+(cd harness && cargo build --offline --target-dir target-o0 --config 'profile.dev.opt-level=0' --config 'profile.dev.package.fast_qr.opt-level=0' 2>&1 | tail -3)
 harness/target/debug/fqv dump-tables > work/tables.json
 python3 tools/gen_tables.py work/tables.json lean/FastQr/Gen
 cd lean
